@@ -11,7 +11,9 @@ import (
 	"go/types"
 	"os"
 	"path/filepath"
+	"regexp"
 	"sort"
+	"strconv"
 	"strings"
 
 	"golang.org/x/tools/go/callgraph"
@@ -137,7 +139,7 @@ func Load(dir string, bc BuildConfig, overlay map[string][]byte) (*Program, erro
 	funcAliases = map[string]*types.Func{}
 	keepHelpers = false
 	notes = append(notes, p.computeAliases(known)...)
-	for round := 1; round <= 4; round++ {
+	for round := 1; round <= 6; round++ {
 		ov, ns := p.normaliseOnce(known, round)
 		if ov == nil {
 			break
@@ -150,6 +152,15 @@ func Load(dir string, bc BuildConfig, overlay map[string][]byte) (*Program, erro
 			merged[k] = v
 		}
 		p2, err2 := loadRaw(dir, bc, merged)
+		if err2 != nil {
+			// removing a helper may have taken the last use of an import with it:
+			// such imports become blank imports
+			if fixed := blankUnusedImports(err2.Error(), merged); fixed != nil {
+				if p3, err3 := loadRaw(dir, bc, fixed); err3 == nil {
+					p2, err2, merged = p3, nil, fixed
+				}
+			}
+		}
 		if err2 != nil && !keepHelpers {
 			// once more without removing the helpers that became unused
 			keepHelpers = true
@@ -768,5 +779,57 @@ func (p *Program) CallSites() []*CallSite {
 		out = append(out, cs)
 	}
 	sort.Slice(out, func(i, j int) bool { return out[i].Call.Lparen < out[j].Call.Lparen })
+	return out
+}
+
+var unusedImportRE = regexp.MustCompile(`^(.+\.go):(\d+):(\d+): ("[^"]+") imported(?: as [\w.]+)? and not used$`)
+
+// blankUnusedImports: when every type error is an unused import, returns the
+// overlay with those import specs turned into blank imports; nil otherwise.
+func blankUnusedImports(msg string, overlay map[string][]byte) map[string][]byte {
+	msg = strings.TrimPrefix(msg, "type errors in module packages: ")
+	type fix struct {
+		file      string
+		line, col int
+		path      string
+	}
+	var fixes []fix
+	for _, part := range strings.Split(msg, "; ") {
+		m := unusedImportRE.FindStringSubmatch(strings.TrimSpace(part))
+		if m == nil {
+			return nil
+		}
+		l, _ := strconv.Atoi(m[2])
+		c, _ := strconv.Atoi(m[3])
+		fixes = append(fixes, fix{m[1], l, c, m[4]})
+	}
+	if len(fixes) == 0 {
+		return nil
+	}
+	out := map[string][]byte{}
+	for k, v := range overlay {
+		out[k] = v
+	}
+	for _, f := range fixes {
+		b, ok := out[f.file]
+		if !ok {
+			var err error
+			b, err = os.ReadFile(f.file)
+			if err != nil {
+				return nil
+			}
+		}
+		lines := strings.Split(string(b), "\n")
+		if f.line < 1 || f.line > len(lines) {
+			return nil
+		}
+		ln := lines[f.line-1]
+		i := strings.Index(ln, f.path)
+		if i < 0 || f.col-1 > i {
+			return nil
+		}
+		lines[f.line-1] = ln[:f.col-1] + "_ " + ln[i:]
+		out[f.file] = []byte(strings.Join(lines, "\n"))
+	}
 	return out
 }
